@@ -158,6 +158,9 @@ func runConsole(cfg *config) {
 			}
 			one := strings.Join(lines, " ")
 			cases = append(cases, consoleCase{expect: []string{one}, keys: []rune(strings.Join(lines, "\r") + "\r")})
+			// U+FFFD is a character like any other (text from a wrongly converted source holds it)
+			rep := "INSERT INTO t VALUES ('caf\ufffd au lait');"
+			cases = append(cases, consoleCase{expect: []string{rep, "SELECT 2;"}, keys: []rune(rep + "\rSELECT 2;\r")})
 			// a TAB typed (pasted) inside a literal belongs to the literal
 			tab := "INSERT INTO t VALUES ('a\tb');"
 			cases = append(cases, consoleCase{expect: []string{tab}, keys: []rune(tab + "\r")})
